@@ -10,6 +10,7 @@ pub mod c34;
 pub mod dsio;
 pub mod c26;
 pub mod c27;
+pub mod c28;
 
 pub fn register(v: &mut Vec<CheckDef>) {
     v.push(dsio::def_c01());
@@ -22,5 +23,6 @@ pub fn register(v: &mut Vec<CheckDef>) {
     v.push(c25::def());
     v.push(c26::def());
     v.push(c27::def());
+    v.push(c28::def());
     v.push(c34::def());
 }
